@@ -782,3 +782,52 @@ Proof.
       pose proof (tpos_not_temp k) as NT. destruct (tpos k) as [r|q']; cbn [lget]; [apply rget_rset_other; congruence|apply sget_rset].
 Qed.
 End Load.
+
+(* ---------- the hypotheses are satisfiable: an object with an integer and a pointer field, shared ---------- *)
+Definition ex_lstate : xstate :=
+  hset (hset (hset (hset
+    (rset (rset (rset (rset (init_state []) 0 (Some ex_sp)) HEAP (Some (HEAP_BASE + 128))) FREE (Some (HEAP_BASE + 192))) 4 (Some HEAP_BASE))
+    HEAP_BASE 1) (HEAP_BASE + 40) 42) (HEAP_BASE + 48) (HEAP_BASE + 64)) (HEAP_BASE + 56) 7.
+Definition ex_load_code : list xcode := match x_load ex_store [] 0 with Ok (cs, _) => cs | Err _ => [] end.
+
+Example x86_load_one_block_example :
+  exists lc', x_load ex_store [] 0 = Ok (ex_load_code, lc') /\
+  exists s', steps (mk_image ex_load_code) 1 ex_lstate (pnth 1 (List.length ex_load_code)) s' /\
+     st_eqB (abs_heap (HEAP_BASE + 192) s') (Heap.load HEAP_BASE (abs_heap (HEAP_BASE + 192) ex_lstate)) /\
+     rget s' 5%N = Some 42 /\ rget s' 6%N = Some (HEAP_BASE + 64) /\ rget s' 7%N = Some 7 /\
+     Heap.hdr (Heap.m (Heap.load HEAP_BASE (abs_heap (HEAP_BASE + 192) ex_lstate)) (HEAP_BASE + 64)) = 1.
+Proof.
+  eexists. split; [vm_compute; reflexivity|].
+  destruct (mk_image_code_labels ex_load_code) as [HC HL]; [apply nodupb_sound; vm_compute; reflexivity|].
+  assert (Hx : exists lc', x_load ex_store [] 0 = Ok (ex_load_code, lc')) by (eexists; vm_compute; reflexivity).
+  destruct Hx as [lc' Hx].
+  assert (W16 : hword ex_lstate (HEAP_BASE + 16) = 0) by (vm_compute; reflexivity).
+  assert (W32 : hword ex_lstate (HEAP_BASE + 32) = 0) by (vm_compute; reflexivity).
+  assert (W48 : hword ex_lstate (HEAP_BASE + 48) = HEAP_BASE + 64) by (vm_compute; reflexivity).
+  assert (B0 : is_blk HEAP_BASE) by (exists 0; split; [lia|]; split; [reflexivity|]; vm_compute; easy).
+  assert (B1 : is_blk (HEAP_BASE + 64)) by (exists 1; split; [lia|]; split; [reflexivity|]; vm_compute; easy).
+  destruct (x86_load_one_block_ok (mk_image ex_load_code) 1 ex_store [] 0 ex_load_code lc' ex_lstate ex_sp HEAP_BASE (HEAP_BASE + 128)
+              (HEAP_BASE + 192) Hx ltac:(cbn; lia) HC HL)
+    as (s' & ST & EQ & V & _).
+  - split; [vm_compute; reflexivity|]. repeat split; vm_compute; easy.
+  - vm_compute; reflexivity.
+  - exact B0.
+  - vm_compute; reflexivity.
+  - split; [|split; [|split]].
+    + intros j Hj. assert (Hc : (j = 0 \/ j = 1 \/ j = 2)%N) by lia.
+      destruct Hc as [->|[->| ->]]; rewrite ?fo_F0, ?fo_F1, ?fo_F2, ?W16, ?W32, ?W48; auto.
+    + intros j Hj. cbn in Hj. assert (j = 0%N) by lia. subst j. rewrite fo_F0. exact W16.
+    + intros i b Hi Hb. destruct i as [|[|[|i]]]; cbn in Hi; try discriminate; inversion Hi; subst b; cbn in Hb; try discriminate.
+      cbn. exact W32.
+    + intros x Hx'. unfold ex_lstate. rewrite !hword_hset by (vm_compute; reflexivity). rewrite !hword_rset.
+      replace (hword (init_state []) x) with 0 by (unfold hword, init_state; cbn [heap]; now rewrite PM.gempty).
+      unfold min_int, max_int, two63, HEAP_BASE.
+      repeat match goal with |- context [?a =? ?b] => destruct (Z.eqb_spec a b) end; lia.
+  - exists s'. split; [exact ST|]. split; [exact EQ|].
+    destruct (V 0%nat _ eq_refl) as [V0 _]. destruct (V 1%nat _ eq_refl) as [V1 V1'].
+    split; [exact V0|]. split; [apply V1'; discriminate|]. split; [exact V1|]. vm_compute; reflexivity.
+Qed.
+
+Print Assumptions x86_load_values_rev_ok.
+Print Assumptions x86_load_one_block_ok.
+Print Assumptions x86_load_one_block_example.
